@@ -30,10 +30,120 @@ const (
 	AlphaNoise
 	AlphaAllZero
 	AlphaSemiFlat // constant 128
+	AlphaSparse   // opaque except 1..3 pixels at raster index 0, 1 or among the last 8 (see sparseAlphaDraw)
 	NumAlphaClasses
 )
 
-var alphaClassNames = []string{"opaque", "binary", "few", "gradient", "noise", "allzero", "semiflat"}
+var alphaClassNames = []string{"opaque", "binary", "few", "gradient", "noise", "allzero", "semiflat", "sparse"}
+
+// sparseAlphaDraw chooses the non-opaque pixels of an AlphaSparse picture of n pixels: half of the time
+// exactly one pixel among the last 8, otherwise 1..3 pixels from {0, 1, n-8 .. n-1}; alpha values from
+// {0, 1, 100, 254}. (Scans for "is any pixel not opaque" that work in blocks, or skip a tail, are wrong
+// exactly on such pictures.)
+func sparseAlphaDraw(r *RNG, n int) map[int]byte {
+	vals := []byte{0, 1, 100, 254}
+	out := map[int]byte{}
+	if r.Bool() {
+		out[maxi(n-1-r.Intn(8), 0)] = vals[r.Intn(4)]
+		return out
+	}
+	cand := []int{0, 1}
+	for k := 1; k <= 8; k++ {
+		cand = append(cand, n-k)
+	}
+	for k := 1 + r.Intn(3); k > 0; k-- {
+		i := cand[r.Intn(len(cand))]
+		if i < 0 || i >= n {
+			i = n - 1
+		}
+		out[i] = vals[r.Intn(4)]
+	}
+	return out
+}
+
+// SparseAlphaSizes cover pixel counts N with N mod 4 = 0, 1, 2, 3 (and N < 8).
+var SparseAlphaSizes = [][2]int{{4, 4}, {5, 3}, {3, 3}, {7, 1}, {2, 3}, {7, 2}, {1, 13}, {16, 16}, {17, 9}, {10, 3}}
+
+// GenImageSparseAt: an opaque picture of colour class cls with the pixels at the given raster indices
+// (negative = counted from the end: -1 is the last pixel) set to alpha a. Indices outside the picture
+// are dropped; ok=false when none is left.
+func GenImageSparseAt(r *RNG, w, h, cls int, idx []int, a byte) (*image.NRGBA, bool) {
+	img := GenImage(r, w, h, cls, AlphaNone)
+	n, ok := w*h, false
+	for _, i := range idx {
+		if i < 0 {
+			i += n
+		}
+		if i >= 0 && i < n {
+			img.Pix[4*i+3] = a
+			ok = true
+		}
+	}
+	return img, ok
+}
+
+// GenZeroRunImage builds a two-colour picture whose 8-pixel groups (the lossless encoder packs 8
+// palette indices of a two-colour picture into one green sample) spell only a few byte values with
+// controlled gaps between them, so that the code-length vector of the green alphabet has runs of
+// unused symbols of chosen lengths: around the limits of the run-length codes (2/3: shortest run code
+// 17 takes; 10/11: code 17 / code 18; 138/139/140: longest run of one code 18) and anywhere in 130..145.
+// withAlpha makes one of the two colours fully transparent (the alpha plane of a lossy encode then has
+// the same bit pattern). Returns the picture and a description of the byte set.
+func GenZeroRunImage(r *RNG, withAlpha bool) (*image.NRGBA, int, int, string) {
+	gaps := []int{1, 2, 3, 4, 9, 10, 11, 12, 137, 138, 139, 140, 141, 142}
+	var set []int
+	v := 0
+	if r.Chance(1, 3) {
+		v = r.Intn(4)
+	}
+	set = append(set, v)
+	for k := 1 + r.Intn(4); k > 0; k-- {
+		g := gaps[r.Intn(len(gaps))]
+		switch r.Intn(4) {
+		case 0:
+			g = 130 + r.Intn(16)
+		case 1:
+			g = []int{138, 139, 140}[r.Intn(3)]
+		}
+		if v+g+1 > 255 {
+			g = []int{1, 2, 3, 10, 11}[r.Intn(5)]
+			if v+g+1 > 255 {
+				break
+			}
+		}
+		v += g + 1
+		set = append(set, v)
+		if r.Chance(1, 3) && v < 255 { // a neighbour, so that the run is bounded by two used symbols
+			v++
+			set = append(set, v)
+		}
+	}
+	groupsPerRow := 1 + r.Intn(5)
+	w := 8 * groupsPerRow
+	h := 1 + r.Intn(12)
+	for groupsPerRow*h < len(set) {
+		h++
+	}
+	c := [2]color.NRGBA{{byte(r.Next()), byte(r.Next()), byte(r.Next()), 255}, {byte(r.Next()), byte(r.Next()), byte(r.Next()), 255}}
+	if c[0] == c[1] {
+		c[1].R ^= 0x80
+	}
+	if withAlpha {
+		c[r.Intn(2)].A = 0
+	}
+	img := image.NewNRGBA(image.Rect(0, 0, w, h))
+	for g := 0; g < groupsPerRow*h; g++ {
+		b := set[r.Intn(len(set))]
+		if g < len(set) {
+			b = set[g] // every value occurs
+		}
+		x0, y := 8*(g%groupsPerRow), g/groupsPerRow
+		for j := 0; j < 8; j++ {
+			img.SetNRGBA(x0+j, y, c[(b>>uint(j))&1])
+		}
+	}
+	return img, w, h, fmt.Sprintf("zero-runs:bytes=%v", set)
+}
 
 // GenImage builds a w×h NRGBA image of the given colour class and alpha pattern.
 func GenImage(r *RNG, w, h, cls, acls int) *image.NRGBA {
@@ -57,6 +167,10 @@ func GenImage(r *RNG, w, h, cls, acls int) *image.NRGBA {
 	fx, fy := 1+r.Intn(7), 1+r.Intn(7)
 	levels := []byte{0, 64, 128, 200, 255}
 	blk := 1 + r.Intn(5)
+	var sparse map[int]byte
+	if acls == AlphaSparse {
+		sparse = sparseAlphaDraw(r, w*h)
+	}
 	for y := 0; y < h; y++ {
 		for x := 0; x < w; x++ {
 			var c color.NRGBA
@@ -99,6 +213,11 @@ func GenImage(r *RNG, w, h, cls, acls int) *image.NRGBA {
 				c.A = 0
 			case AlphaSemiFlat:
 				c.A = 128
+			case AlphaSparse:
+				c.A = 255
+				if a, ok := sparse[y*w+x]; ok {
+					c.A = a
+				}
 			}
 			img.SetNRGBA(x, y, c)
 		}
